@@ -338,7 +338,9 @@ func (g *gen) accessorExpr(sc scope) string {
 	}
 	var b strings.Builder
 	b.WriteString(head)
-	afterKV := false
+	// a parenthesised head that yields keyvalue triples is followed like `.keyvalue()` itself:
+	// `.*`/`.id` would hand out the raw, address-derived id as a bare number
+	afterKV := strings.HasSuffix(head, ".keyvalue())")
 	for i := 0; i < n; i++ {
 		var s string
 		s, afterKV = g.accessor(sc, afterKV)
